@@ -585,7 +585,7 @@ func checkNotification(c *core.Ctx, rule string, lib []*ssa.Function) {
 	if !c.Anchor("handler loop", run != nil, "DefaultHandler.Run", posOf(run)) {
 		return
 	}
-	paths, _ := an.EnumPaths(run, 1024)
+	paths, _ := an.EnumPathsX(run, 1024)
 	var sel *ssa.Select
 	an.AllInstrs(run, func(in ssa.Instruction) {
 		if s, ok := in.(*ssa.Select); ok && s.Blocking {
